@@ -23,12 +23,14 @@ ParamLists == UNION { [1..n -> PKs] : n \in 0..MaxParams }
 \* mockable programs: fn / mod (with mock_api), deps generic-ref / impl-ref / no_deps / concrete, sync/async; plus entraited traits
 \* stamp: the function is stamped out by a macro_rules! macro: the #[entrait(..)] attribute, `fn` and the name are written in
 \* the macro body, the parameter list and the body come from the macro's caller (two hygiene contexts)
-MProgs == { p \in [mode : {"fn", "mod", "trait"}, nfn : 1..3, deps : {"genref", "implref", "nodeps", "concrete"}, async : BOOLEAN, params : ParamLists, stamp : BOOLEAN, cfg : BOOLEAN] :
+MProgs == { p \in [mode : {"fn", "mod", "trait"}, nfn : 1..3, deps : {"genref", "implref", "nodeps", "concrete"}, async : BOOLEAN, params : ParamLists, stamp : BOOLEAN, cfg : BOOLEAN, rev : BOOLEAN] :
             \* (no_deps only: with a dependency the generated `self` and the receiver end up in different hygiene contexts
             \*  and the expansion does not compile on any tree - an observation recorded in DESIGN.md, outside the statements)
             /\ (p.stamp => p.mode = "fn" /\ p.deps = "nodeps" /\ Len(p.params) >= 1)
             \* cfg: the functions of the module carry an ENABLED `#[cfg(..)]` (which the generator mirrors onto the generated methods)
             /\ (p.cfg => p.mode = "mod")
+            \* rev: the module's functions are declared in descending name order (the positional unmock_with list must follow the trait)
+            /\ (p.rev => p.mode = "mod")
             /\ (p.mode = "fn" => p.nfn = 1) /\ (p.mode = "mod" => p.nfn \in 2..3) /\ (p.mode = "trait" => p.nfn \in 1..2 /\ p.deps = "genref")
             /\ (p.deps = "concrete" => p.mode = "fn") }
 Scens(p) == IF p.mode = "trait" \/ p.deps = "concrete" THEN {"mock", "partial-panics"} ELSE {"mock", "partial", "impl"}
